@@ -45,6 +45,7 @@ func runC10(e *Engine, r *Report) {
 	ruleTanManifestSync(e, r)
 	ruleCreatedFileSync(e, r, 1, "internal/tan", "internal/fileutil")
 	ruleTanNewLogOrder(e, r)
+	ruleSoftErrorPairs(e, r)
 	ruleTanSwitchOrder(e, r)
 	ruleRawMkdir(e, r)
 	ruleTanSyncSameDB(e, r)
